@@ -3,41 +3,6 @@ import Fv.Lemmas.ChanClose
 namespace Fv.Chan
 open List
 
-/-- the senders-gone test a blocking receive form performs after finding the buffer empty -/
-def goneFor (fl : Flavour) (s : St) (f : Form) (hd : Handle) : Bool :=
-  sendersGone s || (fl.fam == .sb && hd.isAsync && (f == .recvBatch || f == .recvBatchMut) && s.pd)
-
-theorem recvUnit_pos (fl cfg f n) (hw : recvWant f n [] > 0) : recvUnit fl cfg f n [] > 0 := by
-  unfold recvUnit; split <;> omega
-
-/-- A receive that has taken nothing yet cannot move exactly when the buffer is empty, the senders are
-not gone and the form is a blocking one — in every configuration. -/
-theorem recvStep_none_iff (fl : Flavour) (cfg : Cfg) (s : St) (t : Nat) (f : Form) (hd : Handle) (n : Nat)
-    (hw : recvWant f n [] > 0) (hf : f.isSend = false) :
-    recvStep fl cfg s t f hd n [] = none ↔ (s.buf = [] ∧ goneFor fl s f hd = false ∧ f.blocking = true) := by
-  have hu := recvUnit_pos fl cfg f n hw
-  have hk : recvK fl cfg s f n [] = 0 ↔ s.buf = [] := by
-    unfold recvK
-    constructor
-    · intro h0
-      have : s.buf.length = 0 := by omega
-      exact length_eq_zero_iff.mp this
-    · intro hb; simp [hb]
-  unfold recvStep
-  by_cases hb : s.buf = []
-  · simp only [hk.mpr hb, if_true, isEmpty_nil, hb, true_and]
-    unfold emptyOutcome goneFor
-    simp only []
-    split
-    · rename_i hg; simp [hg]
-    · rename_i hg
-      have hg' : (sendersGone s || fl.fam == Fam.sb && hd.isAsync && (f == Form.recvBatch || f == Form.recvBatchMut) && s.pd) = false := by
-        simpa using hg
-      cases f <;> simp_all [Form.blocking, Form.isSend]
-  · have hk' : ¬ recvK fl cfg s f n [] = 0 := fun h => hb (hk.mp h)
-    simp only [hk', if_false, hb, false_and, iff_false]
-    split <;> simp
-
 /-- A single blocking `send` that has pushed nothing yet cannot move exactly when the window it looks at
 is closed and the receivers are not gone. -/
 theorem sendStep_none_iff (fl : Flavour) (cfg : Cfg) (s : St) (t : Nat) (h : HName) (v : Val) :
@@ -137,18 +102,22 @@ theorem stepOp_recv_blocks_iff {fl : Flavour} (hrv : fl.fam ≠ .rv) (hos : fl.f
     have hnone' : recvStep fl { hot := true, granular := false } s 0 f hd n [] = none := hnone
     rw [hnone']
     simp only []
-    have hstuck : ∀ fuel, (runPS fl { hot := true, granular := false } fuel s (.brecv 0 f h n [])).2
-        = .brecv 0 f h n [] := by
-      intro fuel
-      induction fuel with
-      | zero => rfl
-      | succ k ih =>
-        unfold runPS
-        simp only [microDet, hf]
-        rw [hnone']
-    rw [hstuck]
+    have hst := runPS_brecv_stuck fl seqCfg 0 f h n hd hw hform ((Op.rcv f h n).size + 3) (mbFlush fl s)
+      (by rw [findH_flush]; exact hf)
+      (by
+        rw [recvStep_none_iff fl seqCfg _ 0 f hd n hw hform]
+        have := (recvStep_none_iff fl seqCfg s 0 f hd n hw hform).mp hnone
+        obtain ⟨a, b, c, d, e⟩ := mbFlush_fields fl s
+        refine ⟨by rw [a]; exact this.1, ?_, this.2.2⟩
+        have hg := this.2.1
+        unfold goneFor sendersGone at hg ⊢
+        have hsc : (mbFlush fl s).sc = s.sc := by simpa [St.shell] using congrArg Shell.sc d
+        have hpd : (mbFlush fl s).pd = s.pd := by simpa [St.shell] using congrArg Shell.pd d
+        rw [hsc, hpd]; exact hg)
+    have hst' : (runPS fl { hot := true, granular := false } ((Op.rcv f h n).size + 3) (mbFlush fl s) (.brecv 0 f h n [])).2
+        = .brecv 0 f h n [] := hst
+    rw [hst']
     rfl
-
 
 theorem sendStep_single_fin {fl cfg s t h v s' p'} (hs : sendStep fl cfg s t .send h [] [v] = some (s', p'))
     (hg : cfg.granular = false) : ∃ o, p' = .fin o ∧ o.tag ≠ .blocks := by
